@@ -22,7 +22,7 @@ RULE = ('runs with --xml (in-process, plus some with two or three layers run in 
 TRUSTED_BASE = ["xml.etree.ElementTree's serialiser is modelled (Xml.ser_text / ser_attr) and expat is the referee for well-formedness",
                 'the unittest protocol model (Run.proto) decides which result events a scripted test produces']
 ASSUMPTIONS = ['class names are usable as file names (no "/" or NUL, no lone surrogates): the report file is named after the suite',
-               'unittest cases only; doctest / manuel cases share _record and writeXMLReports but their name parsing is not exercised',
+               'unittest cases and doctest.DocTestCase cases (module and function docstrings, top-level and packaged modules); the wording of doctest failures is not compared; doc-file and manuel cases are not generated',
                'time, hostname and timestamp attributes and the traceback part of the text are not compared']
 
 ALPH = ['plain', 'a<b&c>d"e\'f', ']]>', '\x01\x02', '\x00', '\x7f\x85', '\ud800', 'z\udfff', '￾￿', '\U0001f600', 'l1\nl2',
@@ -74,7 +74,16 @@ def generate(rng, tier, rep):
                 T['deco_skip'] = True
             tests.append(T)
         opts = ['--xml', 'xmlout'] + (['--repeat', '2'] if rng.random() < 0.1 else [])
-        cases.append({'layers': [], 'tests': tests, 'options': opts})
+        c = {'layers': [], 'tests': tests, 'options': opts}
+        if rng.random() < 0.3:
+            # doctest cases beside the unittest cases: in a top-level module (its module docstring test has a name without a dot)
+            # and/or in a module inside a package; passing and failing examples
+            dt = {}
+            for where in rng.sample(['top', 'pkg'], rng.randint(1, 2)):
+                dt[where] = {'moddoc': rng.choice([None, True, True, False]), 'funcs': [rng.random() < 0.6 for _ in range(rng.randint(0, 3))]}
+            c['doctests'] = dt
+            rep.count('with doctests')
+        cases.append(c)
     # layers run in subprocesses (-j N, or resumed after a layer that cannot be torn down): every process writes its
     # own report files into the same folder; nothing written by one process may be lost or overwritten by another
     for k in range({'quick': 12, 'thorough': 150, 'search': 20}[tier]):
@@ -108,7 +117,9 @@ def parse_reports(d):
     """-> (all files well-formed, [suite dicts])"""
     ok = True
     suites = []
-    for f in sorted(glob.glob(os.path.join(d, 'xmlout', 'testreports', '*.xml'))):
+    rd = os.path.join(d, 'xmlout', 'testreports')
+    # (a suite with an empty name is written to '.xml', which a glob for *.xml would not list)
+    for f in sorted(os.path.join(rd, x) for x in (os.listdir(rd) if os.path.isdir(rd) else []) if x.endswith('.xml')):
         data = open(f, 'rb').read()
         p = expat.ParserCreate()
         try:
@@ -123,6 +134,9 @@ def parse_reports(d):
             for ch in tc:
                 if ch.tag in ('failure', 'error'):
                     child = [0 if ch.tag == 'failure' else 1, ch.get('message'), ch.text or '']
+                    if 'Failed doctest test for' in (ch.text or ''):
+                        # the wording of a doctest failure is doctest's own: neither message nor text is compared
+                        child = [child[0], '', '\n\n']
             cases.append([tc.get('classname'), tc.get('name'), child])
         suites.append({'name': root.get('name'), 'tests': int(root.get('tests')), 'errors': int(root.get('errors')),
                        'failures': int(root.get('failures')), 'cases': cases})
@@ -177,9 +191,17 @@ def to_coq(c, o):
         w1 = {'layers': [], 'tests': [T2]}
         tl = worldcase.g_world(w1, mod)
         tlit = tl[tl.index('tests := [') + len('tests := ['):-4]
-        infos.append('{| ti_b := %s; ti_class := %s; ti_name := %s; ti_msgs := %s |}' % (
+        infos.append('{| ti_b := %s; ti_class := %s; ti_name := %s; ti_msgs := %s; ti_doc := None |}' % (
             tlit, g_str('%s.%s' % (mod, T.get('cls') or 'CUnit')), g_str('test_%04d%s' % (i, T.get('msuffix', ''))),
             g_list(['(%d%%nat, %d%%nat, %s)' % (p, k, g_str(m)) for p, k, m in msgs])))
+    for where, spec in sorted((c.get('doctests') or {}).items(), key=lambda kv: kv[0] != 'pkg'):
+        # discovery order: the package directory sorts before... (suites are compared as a set; cases per suite in order)
+        base = ('%s_d' % mod) if where == 'top' else '%s_pk.%s_dd' % (mod, mod)
+        names = ([(base, spec['moddoc'])] if spec.get('moddoc') is not None else []) + [('%s.f%d' % (base, k), ok) for k, ok in enumerate(spec.get('funcs', []))]
+        for nm, ok in names:
+            tl = worldcase.g_world({'layers': [], 'tests': [{'layer': None} if ok else {'layer': None, 'body': 'fail'}]}, mod)
+            tlit = tl[tl.index('tests := [') + len('tests := ['):-4]
+            infos.append('{| ti_b := %s; ti_class := []; ti_name := []; ti_msgs := []; ti_doc := Some %s |}' % (tlit, g_str(nm)))
     reps = worldcase.parse_opts(c)['repeat'] or 1
     infos = infos * reps
     suites = []
@@ -221,4 +243,4 @@ LEVEL_TEXT = ('Theorems for ALL code-point strings: sanitised + serialised text 
               'testcase of its own class/name in its own suite. The model is compared with the real report files of in-process runs '
               '(expat as referee) over the whole character-class alphabet, every outcome kind, subtests and unexpected successes.')
 LEVEL_NOTE = ('The decimal rendering of character references is executable in the model and exercised by the comparison, but '
-              'well-formedness is stated on tokens (raw char / entity / reference). doctest cases are not generated.')
+              'well-formedness is stated on tokens (raw char / entity / reference). Doc-file and manuel cases are not generated.')
